@@ -21,6 +21,17 @@ CHECKS = {
             "DESIGN.md section 3 / C20"),
 }
 
+CHECKS["C19"] = ("exploration",
+    "runtime contract + differential oracle: real hash/verify on a password corpus; systematic corruptions of valid hash strings judged by a reference record parser and reference scrypt",
+    "contracts",
+    "Calls the real Auth.hash_password/verify_password on a password corpus with near neighbours (real scrypt cost) and on "
+    "tens of thousands of corruptions (every truncation position, field removal, base64 damage at every position, parameter "
+    "grids, random edits) of valid hash strings built with cheap parameters; each outcome is judged by a reference parser/KDF. "
+    "Sampling of an infinite input space, with the stated corruption classes enumerated systematically per base hash.",
+    "Trusted: cryptography's scrypt, hashlib, base64. Passwords/corruptions outside the generators are not covered; "
+    "cost-raising parameter edits (N>2048) are not generated.",
+    "DESIGN.md section 3 / C19")
+
 NOT_YET = {}
 
 
